@@ -30,6 +30,10 @@ known("C01", "C01-root-node-no-root-steps", ["root-node", "root-node-fragments-0
       witness='{ node(id:"N1_1") { id } }')
 fixed("C07", "C07-no-root-steps-crash", "ee77ed7", "{ node(id:\"N1_1\") { id } }: nil pointer dereference at executor/depth_executor_manager.go:60 in an AsyncMapReduce worker killed the process")
 fixed("C07", "C07-memberless-interface-crash", "932f200", "{ lonely { x } } with an interface nobody implements: index out of range at planner/sanitize_selection_set.go:135 killed the process")
+fixed("C07", "C07-null-batch-element", "ba943c5", "body [null]: nil pointer dereference at requests/request.go:117 inside the handler")
+fixed("C07", "C07-multipart-path-index-only", "36bd45b", "multipart map path \"0\" in batch mode: index out of range at requests/request.go:159")
+fixed("C07", "C07-multipart-batch-index-out-of-range", "36bd45b", "multipart map path 9.variables.f with fewer operations: index out of range at requests/request.go:167")
+fixed("C07", "C07-multipart-negative-list-index", "36bd45b", "multipart map path variables.l.-1: index out of range [-1] at requests/request.go:199")
 fixed("C09", "C09-long-batch-answer-crash", "8266110", "downstream batch answer with one element too many: index out of range at queryer/multiop_queryer.go:159 killed the process")
 fixed("C09", "C09-short-batch-answer-masked", "8266110", "downstream batch answer one element short or empty: nil results returned with nil error, failure masked")
 fixed("C09", "C09-missing-data-masked", "a6df212", "downstream answer {} or {data:null} without errors was merged as an empty result with an empty errors list")
@@ -82,6 +86,15 @@ C02 = [
 for name, atoms, sigs, what in C02:
     for i, sg in enumerate(sigs):
         known("C02", "C02-%s-%d" % (name, i), atoms, sg, what)
+
+# ----------------------------------------------------------------------------- C19
+for i, sg in enumerate([r"^file bytes changed on the way$", r"^diff:VALUE at <field>$", r"^service that uses the file variable did not receive the file at its path$", r"^diff:NULL "]):
+    known("C19", "C19-one-file-two-paths-%d" % i, ["one-file-two-paths"], sg,
+      "one uploaded file mapped to two variable paths is one reader object injected twice (requests/request.go:89-98); the first multipart re-encoding consumes it, the second position receives an empty file",
+      witness='map {"0":["variables.l.0","variables.l.1"]}')
+    known("C19", "C19-variable-consumed-twice-%d" % i, ["variable-consumed-twice"], sg,
+      "a file variable used by two root fields (same or different services) is read by the first consumer only; extractFiles also nulls nested uploads in the client's shared variable tree (queryer/files.go:43-80), so the second consumer gets an empty file or null",
+      witness="mutation($f:Upload){ upload(f:$f) upload1(f:$f) }")
 
 json.dump(E, open('/verif/known_findings.json', 'w'), indent=1, ensure_ascii=False)
 print(len(E), "entries")
